@@ -8,7 +8,7 @@
 (* the replay: it is recorded in `vBad` with a cause tag, the state is      *)
 (* re-synchronised from the logged outcome and validation goes on.         *)
 (***************************************************************************)
-EXTENDS Find, Format, TzString, TzFile, Resolve, Json, IOUtils, TLC
+EXTENDS Algo, Format, TzString, TzFile, Resolve, Json, IOUtils, TLC
 
 Rec == ndJsonDeserialize(IOEnv.TRACE)
 NRec == Len(Rec)
@@ -204,6 +204,44 @@ VNow(e) ==
              ELSE (IF DtInv(o.dt) THEN {} ELSE {"C14-dtinv"})
                   \cup (IF o.dt \in Localtime(vZone, WToCDS(o.dt.u), o.dt.ns).ok THEN {} ELSE {"wrong-value"}))
 
+\* ---- the algorithm layer (Algo.tla) as a second, implementation-shaped oracle ----
+\* "the result equals what the walk written in the shape of the Rust returns": NoCmp where no comparison is defined
+\* (refused fields, the overflow-prone corners of Find.FindRisky, operations without a walk)
+FindVsAlgo(z, f, ns, r) ==
+  IF FieldErrs(f.y, f.mo, f.d, f.h, f.mi, f.s, ns) # {} THEN "NoCmp"
+  ELSE IF FindRisky(z, f, UnixOf(f.y, f.mo, f.d, f.h, f.mi, f.s)) THEN "NoCmp"
+  ELSE IF Has(r, "ok") /\ r.ok.list = AFind(z, f, ns) THEN "Same" ELSE "Differs"
+TypeVsAlgo(z, u, r) ==
+  IF NearI64Edge(z, u) THEN "NoCmp"
+  ELSE LET a == ATypeAt(z, u) IN
+       IF Has(a, "ok") THEN (IF Has(r, "ok") /\ r.ok = a.ok THEN "Same" ELSE "Differs")
+       ELSE (IF Has(r, "err") /\ r.err = a.err THEN "Same" ELSE "Differs")
+DtVsAlgo(z, u, ns, r, Val(_)) ==
+  IF NearI64Edge(z, u) THEN "NoCmp"
+  ELSE LET a == ATypeAt(z, u) IN
+       IF Has(a, "ok") THEN LET o == FromLocal(u, ns, a.ok) IN
+            (IF Has(r, "ok") THEN (IF Val(r.ok) \in o.ok THEN "Same" ELSE "Differs") ELSE IF Has(r, "err") /\ r.err \in o.err THEN "Same" ELSE "Differs")
+       ELSE (IF Has(r, "err") /\ r.err = a.err THEN "Same" ELSE "Differs")
+Ident(v) == v
+DstOf(v) == v.dst
+VsAlgo(e) ==
+  IF Has(e.r, "panic") \/ Has(e.r, "arg") THEN "NoCmp"
+  ELSE CASE e.op = "find" -> FindVsAlgo(vZone, e.a, e.a.ns, e.r)
+         [] e.op = "findn" -> IF Has(e.r, "full") /\ ~Has(e.r.full, "panic") THEN FindVsAlgo(vZone, e.a, e.a.ns, e.r.full) ELSE "NoCmp"
+         [] e.op = "lookup" -> TypeVsAlgo(vZone, WToCDS(e.a.u), e.r)
+         [] e.op = "localtime" -> DtVsAlgo(vZone, WToCDS(e.a.u), e.a.ns, e.r, Ident)
+         [] e.op = "project" -> IF Has(e.r, "err") /\ e.r.err = "Construct" THEN "NoCmp" ELSE DtVsAlgo(vZone, WToCDS(e.a.t), e.a.ns, e.r, DstOf)
+         [] e.op = "fromnanos" /\ e.a.via = "zone" ->
+              LET sp == Split(e.a.N) IN IF ~WFitsI64(sp.q) THEN "NoCmp" ELSE DtVsAlgo(vZone, WToCDS(sp.q), sp.r, e.r, Ident)
+         [] OTHER -> "NoCmp"
+\* zones of the recorded findings K1 / K2: there the walk and the declarative answer differ, and that difference is the finding
+KClass(z) == z.rule.k = "alt" /\ (~Interleaves(z.sum) \/ CoincidentSouth(z.sum))
+\* facts about one event: a disagreement with the walk anywhere; "exactly the walk's answer" for a judged-bad event on a K zone
+EventInfo(e, tags) ==
+  LET c == VsAlgo(e) IN
+     (IF c = "Differs" THEN {"algo-differs"} ELSE {})
+  \cup (IF tags # {} /\ KClass(vZone) /\ c = "Same" THEN {"as-implemented"} ELSE {})
+
 Verdict(e) ==
   CASE e.op = "gmtime" -> VGmtime(e)
     [] e.op = "fixedzone" -> VFixedZone(e)
@@ -260,9 +298,10 @@ Step(e) ==
      /\ vInfo' = vInfo \cup (IF Has(e.r, "ok") THEN {<<vL, t>> : t \in ZoneInfo(MkZone(e.r.ok))} ELSE {})
      /\ vBuf' = EmptyBuf
   ELSE
-     /\ vBad' = vBad \cup {<<vL, t>> : t \in Verdict(e) \cup ThreadTags(e)}
+     LET tags == Verdict(e) IN
+     /\ vBad' = vBad \cup {<<vL, t>> : t \in tags \cup ThreadTags(e)}
      /\ vZone' = vZone
-     /\ vInfo' = vInfo
+     /\ vInfo' = vInfo \cup {<<vL, t>> : t \in EventInfo(e, tags)}
      /\ vBuf' = IF e.op = "findn" /\ Has(e.r, "buf") THEN e.r.buf ELSE vBuf
 Next == /\ vL <= NRec /\ Step(Rec[vL]) /\ vL' = vL + 1
         /\ vRefOK' = IF Rec[vL].op = "resolve" THEN Has(Rec[vL].r, "ok")
